@@ -61,6 +61,7 @@ func main() {
 		if recv == "-" {
 			recv = ""
 		}
+		p.AnchorsInlined = os.Getenv("VERIF_ANCHORS_INLINED") == "1"
 		fc := p.Func(fs.Arg(0), recv, fs.Arg(2))
 		fmt.Print(fc.G.String(p.Fset))
 		for i, lit := range fc.Lits() {
